@@ -657,8 +657,109 @@ def pred_sequence(name: str, seq: list) -> tuple[str, str] | None:
     return None
 
 
+def pred_axis_aligned(name: str, which: int, axis: int, sign: float, amount: float) -> tuple[str, str] | None:
+    """a rotation about a bond that points EXACTLY along a coordinate axis, in either sense (hand-built and grid
+    geometries, files written with few decimals after orienting a bond): the move is finite, leaves every atom outside
+    the fragment where it was, keeps every reference bond length, and the opposite rotation undoes it"""
+    from scipy.spatial.transform import Rotation
+    from topsearch.data.coordinates import MolecularCoordinates
+    sym, pos = molecules()[name]
+    c0 = fresh(name)
+    if not c0.rotatable_dihedrals:
+        return None
+    dih = c0.rotatable_dihedrals[which % len(c0.rotatable_dihedrals)]
+    a, b = int(dih[1]), int(dih[2])
+    q = pos.reshape(-1, 3) - pos.reshape(-1, 3)[a]
+    target = np.zeros(3)
+    target[axis] = sign
+    rot, _ = Rotation.align_vectors(target[None, :], (q[b] / np.linalg.norm(q[b]))[None, :])
+    q = np.round(rot.apply(q), 6)
+    q[a] = 0.0
+    q[b] = target * round(float(np.linalg.norm(q[b])), 6)          # exactly on the axis
+    c = MolecularCoordinates(list(sym), q.flatten().copy())
+    G0 = c.reference_bonds.copy()
+    if sorted(map(sorted, G0.edges())) != sorted(map(sorted, c0.reference_bonds.edges())):
+        return None                                                 # rounding changed the bonding: not this test's input
+    edges0 = sorted(tuple(sorted((int(u), int(v)))) for u, v in G0.edges())
+    blen = lambda p: np.array([float(np.linalg.norm(p[3 * i:3 * i + 3] - p[3 * j:3 * j + 3])) for i, j in edges0])
+    frag = [int(x) for x in c.get_movable_atoms([a, b], "dihedral", G0.copy())]
+    p0 = c.position.copy()
+    where = f"{name}: rotation by {amount:g} degrees about the bond {a}-{b} placed exactly along {'+' if sign > 0 else '-'}{'xyz'[axis]}"
+    try:
+        with np.errstate(all="ignore"):
+            c.rotate_dihedral([a, b], amount, frag)
+            p1 = c.position.copy()
+            c.rotate_dihedral([a, b], -amount, frag)
+            p2 = c.position.copy()
+    except Exception as e:  # noqa: BLE001
+        return ("dihedral:raises-axis-aligned", f"{where}: raised {type(e).__name__}: {e}")
+    if not (np.all(np.isfinite(p1)) and np.all(np.isfinite(p2))):
+        return ("dihedral:non-finite-axis-aligned", f"{where}: the coordinates are no longer finite numbers")
+    others = [i for i in range(c.n_atoms) if i not in frag]
+    if others and max(float(np.abs(p1[3 * i:3 * i + 3] - p0[3 * i:3 * i + 3]).max()) for i in others) > 1e-9:
+        return ("dihedral:wrong-fragment-axis-aligned", f"{where}: an atom outside the fragment {frag} moved")
+    if float(np.max(np.abs(blen(p1) - blen(p0)))) > 1e-9:
+        return ("dihedral:bond-length-changed-axis-aligned", f"{where}: a reference bond length changes by "
+                f"{float(np.max(np.abs(blen(p1) - blen(p0)))):.3g}")
+    if float(np.max(np.abs(p2 - p0))) > 1e-9:
+        return ("dihedral:not-undone-axis-aligned", f"{where}: the opposite rotation does not restore the geometry "
+                f"(off by {float(np.max(np.abs(p2 - p0))):.3g})")
+    return None
+
+
+def pred_perturb_sequence(name: str, seed: int, n_moves: int = 6) -> tuple[str, str] | None:
+    """consecutive molecular moves of the step taker itself (large rotations about several bonds at once, as the example
+    scripts configure it) on ONE object: each move rotates fragments of the REFERENCE bonding rigidly, so every reference
+    bond length and every bond angle is what it was — however folded the chain has become by then"""
+    import random as pyrandom
+    from topsearch.global_optimisation.perturbations import MolecularPerturbation
+    c = fresh(name)
+    G0 = c.reference_bonds.copy()
+    edges0 = sorted(tuple(sorted((int(u), int(v)))) for u, v in G0.edges())
+    blen = lambda p: np.array([float(np.linalg.norm(p[3 * a:3 * a + 3] - p[3 * b:3 * b + 3])) for a, b in edges0])
+    if not getattr(c, "rotatable_dihedrals", None):
+        return None
+    step = MolecularPerturbation(max_displacement=180.0, max_bonds=min(2, len(c.rotatable_dihedrals)))
+    pyrandom.seed(seed)
+    np.random.seed(seed)
+    for k in range(n_moves):
+        p0 = c.position.copy()
+        b0, a0 = blen(p0), _angles(G0, p0)
+        try:
+            step.perturb(c)
+        except Exception as e:  # noqa: BLE001
+            return ("perturb:raises-after-history", f"move {k + 1} of {n_moves} on {name} (seed {seed}) raised {type(e).__name__}: {e}")
+        p1 = c.position.copy()
+        if not np.all(np.isfinite(p1)):
+            return ("perturb:non-finite", f"move {k + 1} on {name} (seed {seed}) produced non-finite coordinates")
+        b1, a1 = blen(p1), _angles(G0, p1)
+        db = float(np.max(np.abs(b1 - b0)))
+        da = max(abs(a1[q] - a0[q]) for q in a0) if a0 else 0.0
+        if db > 1e-7 or da > 1e-4:
+            return ("perturb:not-rigid-after-history",
+                    f"move {k + 1} of a sequence on {name} (seed {seed}, rotations up to 180 degrees about "
+                    f"{step.max_bonds} bonds): a reference bond length changes by {db:.3g}, a bond angle by {da:.3g} degrees")
+    return None
+
+
 def predicates(ctx: Ctx) -> None:
     rng = ctx.rng
+    for name in [m for m in molecules() if m in ("ethanol.xyz", "hexane.xyz")]:
+        for axis in range(3):
+            for sign in (1.0, -1.0):
+                case = [name, rng.randrange(4), axis, sign, rng.choice([40.0, -75.0, 180.0])]
+                r = pred_axis_aligned(*case)
+                ctx.stats.case({"stream": "predicate-axis-aligned-bond", "molecule": name, "axis": axis, "sign": sign}, True)
+                if r:
+                    ctx.fail(r[0], r[1], {"axis_aligned": case})
+    for _k in range(ctx.scale(6, 30)):
+        name = rng.choice([m for m in molecules() if m in ("hexane.xyz", "ethanol.xyz", "ethanol2.xyz")])     # acyclic: every rotatable bond splits the molecule
+        sd = rng.randrange(10 ** 6)
+        r = pred_perturb_sequence(name, sd)
+        ctx.stats.case({"stream": "predicate-perturb-sequence", "molecule": name, "seed": sd}, True)
+        if r:
+            ctx.fail(r[0], r[1], {"perturb_sequence": [name, sd]})
+            break
     deep = 4 if getattr(ctx, "deep_search", False) else 1
     # corpus / boundary first
     corpus = [([0.0], [1.0], [0.0]), ([0.0], [1.0], [1.0]), ([0.0, -2.0], [1.0, 2.0], [0.5, -2.0]),
@@ -803,6 +904,16 @@ def sequence_cases(rng, name: str, length: int) -> list:
 
 
 def replay(ctx: Ctx, data: dict) -> bool:
+    if "axis_aligned" in data:
+        r = pred_axis_aligned(*data["axis_aligned"])
+        if r:
+            print(f"  {r[0]}: {r[1]}")
+        return r is None
+    if "perturb_sequence" in data:
+        r = pred_perturb_sequence(*data["perturb_sequence"])
+        if r:
+            print(f"  {r[0]}: {r[1]}")
+        return r is None
     k = data.get("kind")
     r = None
     if k == "box":
